@@ -224,6 +224,7 @@ pub fn check(tier: Tier) -> i32 {
 			completed.push(format!("grammar={} len<={} opt={} sequences={}", g.name, g.max_len, opt.name, lists.len()));
 		}
 	}
+	eprintln!("C11: world part done at {:.1}s", budget.elapsed());
 	// --- history part: every version of every key through the value log (time-travel reads) ---
 	let hist_budget = Budget::new(if tier == Tier::Quick { 12.0 } else { 300.0 });
 	let mut hist_evals = 0u64;
@@ -321,11 +322,13 @@ pub fn check(tier: Tier) -> i32 {
 		completed.push(format!("size sweep: N in {ns:?} x version index off/on: write N keys, flush, overwrite all, flush, compact, read everything (current values, every version at its timestamp, full history)"));
 	}
 	report.set("size_sweep_runs", json!(sweep_runs));
+	eprintln!("C11: history part and size sweep done at {:.1}s", budget.elapsed());
 	// --- crash part: power-loss / process-crash images of value-log workloads ---
 	let code = crate::props::crash::run_into(&mut report, "C11", tier, if tier == Tier::Quick { 14.0 } else { 600.0 });
 	if code != 0 {
 		return code;
 	}
+	eprintln!("C11: crash part done at {:.1}s", budget.elapsed());
 	let crash_evals = report.coverage.get("evaluations").and_then(|v| v.as_u64()).unwrap_or(0);
 	report.set("crash_image_evaluations", json!(crash_evals));
 	// --- schedule part: a flush (with its obsolete-file clean-up) while a compaction is in flight ---
